@@ -8,7 +8,7 @@ import sys
 
 from . import report
 
-PROPS = ["C%02d" % i for i in range(1, 20)]
+PROPS = ["C%02d" % i for i in range(1, 21)]
 
 
 def run_one(prop: str, tier: str) -> int:
